@@ -330,7 +330,24 @@ def check_C09(tier, seed):
     return res.finish()
 
 
-CHECKS = {"C09": check_C09, "C18": check_C18, "C04": check_C04, "C11": check_C11, "C01": check_C01, "C02": check_C02, "C16": check_C16, "C03": check_C03, "C12": check_C12, "C13": check_C13,
+def check_C08(tier, seed):
+    res = Result("C08", tier, seed, "model_checking")
+    binary = need_binary(res)
+    rng = random.Random(seed * 7919 + 8)
+    q = tier == "quick"
+    raw = os.path.join(C.OUT, "C08-vectors-raw.ndjson")
+    res.add_mc(run_mc("MC_TzFile", dict(EmitVec="TRUE", CMod=29 if q else 3, CRem=seed % (29 if q else 3)), workers=C.NCPU, vec_out=raw, timeout=6000, xmx="12g"))
+    run_pipeline(res, binary, "vec", vec_path=raw, validate=False)
+    os.remove(raw)
+    files = gens.select_files(rng, 60) if q else gens.corpus_files()
+    res.notes["corpus_files_decoded"] = len(files)
+    run_pipeline(res, binary, "corpus", gen_lines=gens.gen_corpus_decode(rng, files), nshards=12 if q else 16, min_events=5)
+    run_pipeline(res, binary, "corpus-mutations", gen_lines=gens.gen_corpus_mutations(rng, files, 6 if q else 20), nshards=12 if q else 16, min_events=30)
+    res.notes["rule"] = "vectors: small zones written by the TLA+ encoder in v1/v2/v3 (32-bit block of v2+ holds a different zone; shared-suffix and empty designations; all indicator vectors; plain and extended footers) with Decode(Encode(z)) = z model-checked, plus every truncation and single-byte corruption of a share of them with the spec decoder's verdict; events: real tzdata 2025b files (posix and right/ trees) decoded by the TLA+ decoder inside TLC and compared with the crate's zone, and single-field corruptions of real files"
+    return res.finish()
+
+
+CHECKS = {"C08": check_C08, "C09": check_C09, "C18": check_C18, "C04": check_C04, "C11": check_C11, "C01": check_C01, "C02": check_C02, "C16": check_C16, "C03": check_C03, "C12": check_C12, "C13": check_C13,
           "C05": lambda t, s: check_find("C05", t, s), "C06": lambda t, s: check_find("C06", t, s), "C17": lambda t, s: check_find("C17", t, s),
           "C14": check_C14}
 
